@@ -416,7 +416,7 @@ def run_case(case, ctx):
             aborted_under = False
             if why.startswith("pool exits"):
                 import re
-                m = re.search(r"symlink '([^']*)'", why)
+                m = re.search(r"(?:symlink|directory) '([^']*)'", why)
                 if m:
                     rel = os.path.relpath(m.group(1).encode("latin-1"), pool)
                     aborted_under = under(rel)
